@@ -524,11 +524,12 @@ def parse_mir(text):
                 key = "%s#%d" % (key, k)
             fns[key] = f
         else:
-            m = re.match(r"^(alloc\d+) \(static: ([^,]+), size: (\d+), align: (\d+)\) \{", ln)
+            m = re.match(r"^(alloc\d+) \((?:static: ([^,]+), )?size: (\d+), align: (\d+)\) \{", ln)
             if m:
-                aid, sname, size = m.group(1), m.group(2), int(m.group(3))
+                aid, sname, size = m.group(1), m.group(2) or m.group(1), int(m.group(3))
                 data = bytearray()
                 relocs = False
+                ptr = None
                 i += 1
                 while i < n and not lines[i].startswith("}"):
                     body = lines[i]
@@ -544,9 +545,12 @@ def parse_mir(text):
                                 data.append(0)
                             else:
                                 relocs = True
+                                mp = re.search(r"(alloc\d+)", tok)
+                                if mp:
+                                    ptr = mp.group(1)
                     i += 1
                 statics[sname] = {"alloc": aid, "size": size, "bytes": bytes(data[:size]) if not relocs else None,
-                                  "raw": bytes(data)}
+                                  "raw": bytes(data), "ptr": ptr}
                 statics[aid] = statics[sname]
         i += 1
     return fns, statics
